@@ -33,7 +33,7 @@ from typing import Tuple, Optional, Dict
 from deep.api.tracepoint import Variable, VariableId
 from deep.processor.bfs import ParentNode, Node, NodeValue, breadth_first_search
 from deep.processor.variable_processor import process_variable, \
-    process_child_nodes, Collector
+    process_child_nodes, Collector, safe_str
 
 
 class VariableCacheProvider:
@@ -131,7 +131,7 @@ class VariableSetProcessor(Collector):
         check_id = self.__var_cache.check_id(identity_hash_id)
         if check_id is not None:
             # this means the watch result is already in the var_lookup
-            return VariableId(check_id, name), str(value)
+            return VariableId(check_id, name), safe_str(value)
 
         # else this is an unknown value so process breadth first
         var_ids = []
@@ -148,7 +148,7 @@ class VariableSetProcessor(Collector):
 
         var_id = self.__var_cache.check_id(identity_hash_id)
 
-        return VariableId(var_id, name), str(value)
+        return VariableId(var_id, name), safe_str(value)
 
     def search_function(self, node: Node) -> bool:
         """
